@@ -12,6 +12,7 @@
 #include <xercesc/parsers/SAX2XMLReaderImpl.hpp>
 #include <xercesc/parsers/XercesDOMParser.hpp>
 #include <xercesc/sax/ErrorHandler.hpp>
+#include <xercesc/sax/EntityResolver.hpp>
 #include <xercesc/sax/SAXParseException.hpp>
 #include <xercesc/sax/HandlerBase.hpp>
 #include <xercesc/sax2/DefaultHandler.hpp>
@@ -120,6 +121,7 @@ struct MyDOM : public XercesDOMParser {
     }
 };
 
+static EntityResolver* gResolverPtr();
 struct Cfg { const char* name; int api; bool dg; bool ns; };
 static const Cfg kCfgs[] = {
     {"sax1-IG", 0, false, false},      // IGXMLScanner::scanStartTag
@@ -145,17 +147,20 @@ struct Parsers {
             s1[dg]->setErrorHandler(&eh);
             s1[dg]->installAdvDocHandler(&tap);
             s1[dg]->setDoSchema(false);
+            s1[dg]->setEntityResolver(gResolverPtr());
             s2[dg] = new MySAX2();
             s2[dg]->setProperty(XMLUni::fgXercesScannerName, (void*)sc);
             s2[dg]->setErrorHandler(&eh);
             s2[dg]->installAdvDocHandler(&tap);
             s2[dg]->setFeature(XMLUni::fgXercesSchema, false);
             s2[dg]->setFeature(XMLUni::fgXercesDynamic, false);
+            s2[dg]->setEntityResolver(gResolverPtr());
             dom[dg] = new MyDOM();
             dom[dg]->useScanner(sc);
             dom[dg]->setErrorHandler(&eh);
             dom[dg]->setDoSchema(false);
             dom[dg]->setCreateEntityReferenceNodes(false);
+            dom[dg]->setEntityResolver(gResolverPtr());
         }
         loader = new MySAX1();
         loader->setErrorHandler(&eh);
@@ -360,7 +365,7 @@ static std::string handleCM(const std::string& line, std::string& stat, bool& ta
                 else if (r.hErr != r.rErr || r.hFatal != r.rFatal) why = "ErrorHandler callbacks and XMLErrorReporter events disagree";
                 if (why.empty()) { cnt.add(std::string("ok_") + got); continue; }
                 cnt.add("mismatches");
-                tainted = true;
+                if (got == "exception" || got == "fatal") tainted = true;
                 if (reported++ < 6)
                     out += dumpLine({{"t", "mismatch"},
                                      {"cls", {{"action", "content"}, {"kind", kind}, {"cfg", kCfgs[ci].name}, {"via", "parse"}, {"expected", expectValid ? "valid" : "invalid"},
@@ -419,12 +424,198 @@ static int modeCM(int nDeclared) {
     return sup.run();
 }
 
-static int modeOne(const char* cfgName, bool validate, const char* path) {
+
+// ------------------------------------------------------------------------------------------------
+// mode dv: attribute / ID / IDREF / root / standalone scenarios of DtdValidity
+// ------------------------------------------------------------------------------------------------
+static const char* kElType[] = {"?", "r", "e"};
+static const char* kAttName[] = {"?", "p", "q", "s"};
+static const char* kTok[] = {"?", "x", "y", "7", "!"};       // 1,2 Names; 3 Nmtoken only; 4 neither
+static const char* kPrelude = "<!NOTATION x SYSTEM \"nx\"><!ENTITY x SYSTEM \"ux\" NDATA x><!ELEMENT r ANY><!ELEMENT e ANY>";
+struct TypeRow { const char* ty; const char* text; bool list; };
+static const TypeRow kTypes[] = {
+    {"CDATA", "CDATA", false}, {"ID", "ID", false}, {"IDREF", "IDREF", false}, {"IDREFS", "IDREFS", false},
+    {"NMTOKEN", "NMTOKEN", false}, {"NMTOKENS", "NMTOKENS", false}, {"ENTITY", "ENTITY", false}, {"ENTITIES", "ENTITIES", false},
+    {"NOTATION", "NOTATION ", true}, {"ENUM", "", true},
+};
+// constraint kind -> the XMLValid codes that report it
+struct KindRow { const char* kind; std::vector<int> codes; };
+static const KindRow kKinds[] = {
+    {"Root", {XMLValid::RootElemNotLikeDocType}},
+    {"Required", {XMLValid::RequiredAttrNotProvided}},
+    {"Fixed", {XMLValid::NotSameAsFixedValue}},
+    {"AttrDeclared", {XMLValid::AttNotDefinedForElement}},
+    {"AttrValue", {XMLValid::InvalidEmptyAttValue, XMLValid::AttrValNotName, XMLValid::NoMultipleValues, XMLValid::DoesNotMatchEnumList, XMLValid::ColonNotValidWithNS}},
+    {"IDUnique", {XMLValid::ReusedIDValue}},
+    {"IDREF", {XMLValid::IDNotDeclared}},
+    {"Entity", {XMLValid::UnknownEntityRefAttr, XMLValid::BadEntityRefAttr}},
+    {"IDDefault", {XMLValid::BadIDAttrDefType}},
+    {"OneID", {XMLValid::MultipleIdAttrs}},
+    {"NotationDecl", {XMLValid::UnknownNotRefAttr}},
+    {"DupToken", {XMLValid::AttrDupToken}},
+    {"Standalone", {XMLValid::NoDefAttForStandalone, XMLValid::NoAttNormForStandalone, XMLValid::NoWSForStandalone}},
+};
+
+static std::string gExternalSubset;
+struct MemResolver : public EntityResolver {
+    InputSource* resolveEntity(const XMLCh* const, const XMLCh* const) override {
+        return new MemBufInputSource((const XMLByte*)gExternalSubset.data(), gExternalSubset.size(), "ext.dtd", false);
+    }
+};
+static MemResolver gResolver;
+static EntityResolver* gResolverPtr() { return &gResolver; }
+
+static std::string renderValue(const json& toks, bool pad) {
+    std::string s = pad ? " " : "";
+    for (size_t i = 0; i < toks.size(); i++) { if (i) s += pad ? "  " : " "; s += kTok[toks[i].get<int>()]; }
+    return s;
+}
+static std::string renderDecl(const json& d) {
+    std::string s = std::string("<!ATTLIST ") + kElType[d["el"].get<int>()] + " " + kAttName[d["att"].get<int>()] + " ";
+    const std::string ty = d["ty"];
+    const TypeRow* row = nullptr;
+    for (auto& r : kTypes) if (ty == r.ty) row = &r;
+    if (!row) throw std::runtime_error("type " + ty);
+    s += row->text;
+    if (row->list) {
+        s += "(";
+        for (size_t i = 0; i < d["en"].size(); i++) { if (i) s += "|"; s += kTok[d["en"][i].get<int>()]; }
+        s += ")";
+    }
+    const std::string df = d["df"];
+    if (df == "required") s += " #REQUIRED";
+    else if (df == "implied") s += " #IMPLIED";
+    else if (df == "fixed") s += " #FIXED \"" + renderValue(d["dv"], false) + "\"";
+    else s += " \"" + renderValue(d["dv"], false) + "\"";
+    return s + ">";
+}
+static std::string renderElemTag(const json& e, bool selfClose) {
+    std::string s = std::string("<") + kElType[e["el"].get<int>()];
+    for (auto& a : e["atts"]) s += std::string(" ") + kAttName[a["att"].get<int>()] + "=\"" + renderValue(a["v"], a["pad"].get<bool>()) + "\"";
+    return s + (selfClose ? "/>" : ">");
+}
+static json renderEff(const json& eff) {
+    json out = json::array();
+    for (auto& e : eff) {
+        std::vector<json> as;
+        for (auto& q : e[1]) as.push_back(json::array({kAttName[q[0].get<int>()], renderValue(q[1], q[2].get<bool>()), q[3].get<bool>() ? 1 : 0}));
+        std::sort(as.begin(), as.end());
+        out.push_back(json::array({kElType[e[0].get<int>()], as}));
+    }
+    return out;
+}
+
+static std::string handleDV(const std::string& line, std::string& stat, bool& tainted) {
+    json j;
+    if (!decode_tlc_line(line, j)) { stat = "torn"; return ""; }
+    stat = "lines_dv";
+    const json& S = j[0];
+    std::string out;
+    Counters cnt;
+    int reported = 0;
+    std::string internal = kPrelude, external;
+    bool anyExt = false;
+    for (auto& d : S["decls"]) {
+        if (d["ext"].get<bool>()) { external += renderDecl(d); anyExt = true; }
+        else internal += renderDecl(d);
+    }
+    const json& d0 = S["decls"][0];
+    const std::string head = std::string(S["sa"].get<bool>() ? "<?xml version=\"1.0\" standalone=\"yes\"?>" : "") + "<!DOCTYPE " +
+                             kElType[S["doctype"].get<int>()] + (anyExt ? " SYSTEM \"ext.dtd\"" : "") + " [" + internal + "]>";
+    gExternalSubset = external;
+    cnt.add("scenarios");
+    for (auto& c : j[1]) {
+        const json& doc = c[0];
+        const json& kinds = c[1];
+        const json expEff = renderEff(c[2]);
+        std::string text = head;
+        if (doc.size() == 1) text += renderElemTag(doc[0], true);
+        else {
+            text += renderElemTag(doc[0], false);
+            for (size_t i = 1; i < doc.size(); i++) text += renderElemTag(doc[i], true);
+            text += std::string("</") + kElType[doc[0]["el"].get<int>()] + ">";
+        }
+        cnt.add("cases");
+        cnt.add(kinds.empty() ? "expect_valid" : "expect_invalid");
+        for (auto& k : kinds) cnt.add("kind:" + k.get<std::string>());
+        for (int validate = 1; validate >= 0; validate--) {
+            for (int ci = 0; ci < kNCfg; ci++) {
+                Rec r;
+                P->parse(kCfgs[ci], validate != 0, text, r);
+                cnt.add("parses");
+                const std::string got = verdictOf(r);
+                std::vector<std::pair<std::string, std::string>> bad;    // (what, detail)
+                if (got == "exception" || got == "fatal") bad.push_back({"fatal", "the parse ended with a " + got + " (" + r.exc + "); validity violations must be reported as errors only"});
+                else if (!validate) { if (got != "valid") bad.push_back({"verdict", "errors reported with validation off"}); }
+                else {
+                    if ((got == "valid") != kinds.empty())
+                        bad.push_back({"verdict", std::string("document is ") + (kinds.empty() ? "valid" : "invalid") + " by the specification, reported " + got});
+                    for (auto& k : kinds) {
+                        bool seen = false;
+                        for (auto& row : kKinds) if (k == row.kind) for (int code : row.codes) if (r.hasV(code)) seen = true;
+                        if (!seen) bad.push_back({"kind:" + k.get<std::string>(), "violated constraint " + k.get<std::string>() + " produced no validity error of its kind"});
+                    }
+                    if (r.hErr != r.rErr || r.hFatal != r.rFatal) bad.push_back({"handler", "ErrorHandler callbacks and XMLErrorReporter events disagree"});
+                }
+                if (got != "exception" && got != "fatal") {
+                    cnt.add("atts_compared");
+                    if (r.elems != expEff) bad.push_back({"atts", "attributes reported (specified + defaulted, normalised) differ from the specification"});
+                }
+                if (bad.empty()) { cnt.add(std::string("ok_") + got); continue; }
+                if (got == "exception" || got == "fatal") tainted = true;
+                // operand relations that identify known findings (computed from the abstract case only)
+                bool paddedSpecified = false, multiInList = false;
+                auto allInList = [&](const json& v) {
+                    if (v.size() < 2) return false;
+                    for (auto& t : v) { bool in = false; for (auto& e : d0["en"]) if (e == t) in = true; if (!in) return false; }
+                    return true;
+                };
+                const bool listType = d0["ty"] == "ENUM" || d0["ty"] == "NOTATION";
+                for (auto& e : doc) for (auto& a : e["atts"]) {
+                    if (a["pad"].get<bool>() && a["att"] == d0["att"]) paddedSpecified = true;
+                    if (listType && a["att"] == d0["att"] && allInList(a["v"])) multiInList = true;
+                }
+                if (listType && (d0["df"] == "fixed" || d0["df"] == "default") && allInList(d0["dv"])) multiInList = true;
+                for (auto& b : bad) {
+                    cnt.add("mismatches");
+                    if (reported++ >= 8) continue;
+                    out += dumpLine({{"t", "mismatch"},
+                                     {"cls", {{"action", "attrs"}, {"what", b.first}, {"cfg", kCfgs[ci].name}, {"validate", validate}, {"ty", d0["ty"]}, {"df", d0["df"]},
+                                              {"ext", d0["ext"]}, {"sa", S["sa"]}, {"expected", kinds.empty() ? "valid" : "invalid"}, {"got", got}, {"codes", r.codeStr()},
+                                              {"paddedValue", paddedSpecified},
+                                              {"multiTokenAllInList", (b.first == "verdict" || b.first == "kind:AttrValue") && multiInList}}},
+                                     {"why", b.second},
+                                     {"case", {{"mode", "dv"}, {"scenario", S}, {"document", doc}, {"kinds", kinds}, {"doc", text}, {"external", external}, {"validate", validate},
+                                               {"expected_atts", expEff}, {"got_atts", r.elems}, {"exc", r.exc}}}});
+                }
+            }
+        }
+    }
+    out += cnt.line();
+    return out;
+}
+
+static int modeDV() {
+    Supervisor sup;
+    sup.timeoutSec = 120;
+    sup.initChild = [&]() { XMLPlatformUtils::Initialize(); P = new Parsers(); };
+    sup.handle = [&](const std::string& line, std::string& stat, bool& tainted) -> std::string { return handleDV(line, stat, tainted); };
+    sup.onFail = [&](const std::string& line, const std::string& what) -> std::string {
+        json j, S;
+        if (decode_tlc_line(line, j)) S = j[0];
+        return dumpLine({{"t", "mismatch"}, {"cls", {{"action", "attrs"}, {"what", "fatal"}, {"got", what}, {"why", "call did not return"}}},
+                         {"why", "the implementation crashed or hung while parsing: " + what}, {"case", {{"mode", "dv"}, {"scenario", S}}}});
+    };
+    return sup.run();
+}
+
+static int modeOne(const char* cfgName, bool validate, const char* path, const char* extPath) {
     XMLPlatformUtils::Initialize();
     P = new Parsers();
     std::ifstream f(path);
     std::stringstream ss;
     ss << f.rdbuf();
+    if (extPath) { std::ifstream g(extPath); std::stringstream es; es << g.rdbuf(); gExternalSubset = es.str(); }
     for (int ci = 0; ci < kNCfg; ci++) {
         if (strcmp(cfgName, "all") && strcmp(cfgName, kCfgs[ci].name)) continue;
         Rec r;
@@ -438,7 +629,8 @@ static int modeOne(const char* cfgName, bool validate, const char* path) {
 int main(int argc, char** argv) {
     std::string mode = argc > 1 ? argv[1] : "";
     if (mode == "cm") return modeCM(argc > 2 ? atoi(argv[2]) : 3);
-    if (mode == "one" && argc >= 5) return modeOne(argv[2], atoi(argv[3]) != 0, argv[4]);
-    fprintf(stderr, "usage: dtd_harness cm <ndeclared> | one <cfg|all> <0|1> <file>\n");
+    if (mode == "dv") return modeDV();
+    if (mode == "one" && argc >= 5) return modeOne(argv[2], atoi(argv[3]) != 0, argv[4], argc > 5 ? argv[5] : nullptr);
+    fprintf(stderr, "usage: dtd_harness cm <ndeclared> | dv | one <cfg|all> <0|1> <file> [external-subset-file]\n");
     return 2;
 }
